@@ -234,3 +234,115 @@ Proof.
   - unfold eta64. apply bpow_ge_0.
   - apply rnd64_spec.
 Qed.
+
+(* ---- C13, no drift at the binary64 level: a bound that is already on the float grid (the float nearest k * P for an
+        integer k) is returned unchanged by the rounding computation ---- *)
+Section Fixed.
+Variables u eta : R.
+Hypothesis Hu : 0 <= u.
+Hypothesis Hu8 : u <= / 8.
+Hypothesis Heta : 0 <= eta.
+Variable rnd : R -> R.
+Hypothesis rnd_spec : forall x, exists e t, Rabs e <= u /\ Rabs t <= eta /\ rnd x = x * (1 + e) + t.
+Variable P : R.
+Hypothesis HP : 0 < P.
+
+(* a bound already on the float grid: x = rnd (k * P) for an integer k that the format represents exactly *)
+Theorem rfloat_on_grid_fixed (k : Z) :
+  rnd (IZR k) = IZR k ->
+  8 * u * (Rabs (IZR k) + 1) + 8 * eta * (/ P + 1) < / 2 ->
+  rfloat rnd P (rnd (IZR k * P)) = rnd (IZR k * P).
+Proof.
+  intros Hk Hsmall. unfold rfloat.
+  set (x := rnd (IZR k * P)).
+  destruct (rnd_spec (IZR k * P)) as [e0 [t0 [He0 [Ht0 E0]]]]. fold x in E0.
+  destruct (rnd_spec (x / P)) as [e1 [t1 [He1 [Ht1 E1]]]].
+  set (q := rnd (x / P)) in *.
+  destruct (rnd_spec (q + / 2)) as [e2 [t2 [He2 [Ht2 E2]]]].
+  set (s := rnd (q + / 2)) in *.
+  set (K := Rabs (IZR k)) in *. assert (HK : - K <= IZR k <= K) by (apply Rabs_bounds, Rle_refl).
+  assert (HK0 : 0 <= K) by apply Rabs_pos.
+  assert (Iw : 0 < / P) by now apply Rinv_0_lt_compat.
+  set (w := / P) in *.
+  (* x / P = k + k e0 + t0 w *)
+  set (m0 := IZR k * e0). assert (B0 : Rabs m0 <= K * u) by (apply Rabs_mul_le; [apply Rle_refl | exact He0]).
+  set (n0 := t0 * w). assert (C0 : Rabs n0 <= eta * w) by (apply Rabs_mul_le; [exact Ht0 | rewrite Rabs_pos_eq; lra]).
+  assert (XP : x / P = IZR k + m0 + n0) by (rewrite E0; unfold m0, n0, w; field; lra).
+  assert (BXP : Rabs (x / P) <= K + K * u + eta * w).
+  { rewrite XP. apply Rabs_bounds in B0, C0. apply Rabs_le. lra. }
+  set (m1 := x / P * e1). assert (B1 : Rabs m1 <= (K + K * u + eta * w) * u) by (apply Rabs_mul_le; assumption).
+  assert (Q : q = IZR k + (m0 + n0 + m1 + t1)) by (rewrite E1; unfold m1; rewrite XP; ring).
+  set (dq := m0 + n0 + m1 + t1) in *.
+  assert (0 <= K * u) by nra. assert (0 <= eta * w) by nra. assert (K * u * u <= K * u / 8) by nra.
+  assert (eta * w * u <= eta * w / 8) by nra.
+  assert (Bdq : Rabs dq <= 3 * u * K + 2 * eta * w + eta).
+  { apply Rabs_bounds in B0, C0, B1, Ht1. apply Rabs_le. unfold dq. lra. }
+  assert (BQ : Rabs (q + / 2) <= K + / 2 + (3 * u * K + 2 * eta * w + eta)).
+  { rewrite Q. apply Rabs_bounds in Bdq. apply Rabs_le. lra. }
+  set (m2 := (q + / 2) * e2).
+  assert (B2 : Rabs m2 <= (K + / 2 + (3 * u * K + 2 * eta * w + eta)) * u) by (apply Rabs_mul_le; assumption).
+  assert (S : s = IZR k + / 2 + (dq + m2 + t2)) by (rewrite E2; unfold m2; rewrite Q; ring).
+  assert (Bs : Rabs (dq + m2 + t2) < / 2).
+  { apply Rabs_bounds in Bdq, B2, Ht2.
+    assert (eta * u <= eta / 8) by nra. assert (0 <= u * K) by nra.
+    assert (u * (u * K) <= u * K / 8) by nra.
+    apply Rabs_def1; lra. }
+  apply Rabs_def2 in Bs.
+  assert (Fl : Zfloor s = k).
+  { apply Zfloor_imp. rewrite plus_IZR. simpl. lra. }
+  rewrite Fl, Hk. reflexivity.
+Qed.
+End Fixed.
+
+(* binary64: integers below 2^53 are represented exactly *)
+Lemma rnd64_int k : (Z.abs k < 2 ^ 53)%Z -> rnd64 (IZR k) = IZR k.
+Proof.
+  intro Hk. unfold rnd64. apply round_generic; [apply valid_rnd_N|].
+  apply generic_format_FLT. exists (Float radix2 k 0).
+  - unfold F2R; simpl. ring.
+  - simpl. lia.
+  - simpl. lia.
+Qed.
+
+Theorem binary64_on_grid_fixed (P : R) (k : Z) : 0 < P -> (Z.abs k <= 2 ^ 40)%Z -> bpow radix2 (-1000) <= P ->
+  rfloat rnd64 P (rnd64 (IZR k * P)) = rnd64 (IZR k * P).
+Proof.
+  intros HP Hk HPl.
+  apply (rfloat_on_grid_fixed u64 eta64).
+  - unfold u64. apply bpow_ge_0.
+  - unfold u64. apply Rle_trans with (bpow radix2 (-3)); [apply bpow_le; lia | simpl; lra].
+  - unfold eta64. apply bpow_ge_0.
+  - apply rnd64_spec.
+  - exact HP.
+  - apply rnd64_int. lia.
+  - assert (A : Rabs (IZR k) <= bpow radix2 40).
+    { rewrite <- abs_IZR. change (bpow radix2 40) with (IZR (2 ^ 40)). now apply IZR_le. }
+    assert (B : / P <= bpow radix2 1000).
+    { replace (bpow radix2 1000) with (/ bpow radix2 (-1000)) by (rewrite <- bpow_opp; reflexivity).
+      apply Rinv_le_contravar; [apply bpow_gt_0 | exact HPl]. }
+    assert (U : u64 * (bpow radix2 40 + 1) <= bpow radix2 (-12)).
+    { unfold u64. replace (bpow radix2 (-12)) with (bpow radix2 (-53) * bpow radix2 41) by (rewrite <- bpow_plus; reflexivity).
+      apply Rmult_le_compat_l; [apply bpow_ge_0|]. change (bpow radix2 41) with (IZR (2 ^ 41)). change (bpow radix2 40) with (IZR (2 ^ 40)).
+      rewrite <- plus_IZR. apply IZR_le. lia. }
+    assert (E : eta64 * (bpow radix2 1000 + 1) <= bpow radix2 (-74)).
+    { unfold eta64. replace (bpow radix2 (-74)) with (bpow radix2 (-1075) * bpow radix2 1001) by (rewrite <- bpow_plus; reflexivity).
+      apply Rmult_le_compat_l; [apply bpow_ge_0|].
+      replace (bpow radix2 1001) with (bpow radix2 1000 + bpow radix2 1000) by (replace 1001%Z with (1000 + 1)%Z by lia; rewrite bpow_plus; simpl; lra).
+      assert (1 <= bpow radix2 1000) by (change 1 with (bpow radix2 0); apply bpow_le; lia). lra. }
+    assert (0 <= u64) by (unfold u64; apply bpow_ge_0). assert (0 <= eta64) by (unfold eta64; apply bpow_ge_0).
+    assert (0 <= Rabs (IZR k)) by apply Rabs_pos. assert (0 < / P) by now apply Rinv_0_lt_compat.
+    assert (u64 * (Rabs (IZR k) + 1) <= bpow radix2 (-12)) by nra.
+    assert (eta64 * (/ P + 1) <= bpow radix2 (-74)) by nra.
+    assert (bpow radix2 (-12) <= / 64) by (apply Rle_trans with (bpow radix2 (-6)); [apply bpow_le; lia | simpl; lra]).
+    assert (bpow radix2 (-74) <= / 32) by (apply Rle_trans with (bpow radix2 (-5)); [apply bpow_le; lia | simpl; lra]).
+    lra.
+Qed.
+
+(* hence rounding twice is rounding once at the binary64 level too (whenever the tick count stays below 2^40) *)
+Definition ticks64 (P x : R) : Z := Zfloor (rnd64 (rnd64 (x / P) + / 2)).
+Corollary binary64_idempotent (P x : R) : 0 < P -> bpow radix2 (-1000) <= P -> (Z.abs (ticks64 P x) <= 2 ^ 40)%Z ->
+  rfloat rnd64 P (rfloat rnd64 P x) = rfloat rnd64 P x.
+Proof.
+  intros HP HPl Hk. unfold rfloat at 2 3. fold (ticks64 P x).
+  rewrite (rnd64_int (ticks64 P x)) by lia. now apply binary64_on_grid_fixed.
+Qed.
